@@ -129,6 +129,8 @@ async def replay(d: MailDriver, states, drift):
             continue
         # state
         for m in mboxes:
+            if not got["st"]["mb"][m].get("active", True):
+                continue      # after a restart a mailbox nobody has opened yet is not in memory: nothing to compare
             mm, im = _model_msgs(st, m), _impl_msgs(got["st"], m)
             if mm != im:
                 drift.append({"action": act, "field": f"msgs[{m}]",
